@@ -12,9 +12,11 @@ import (
 	"strings"
 	"testing"
 	"time"
+	"unicode/utf8"
 
 	"github.com/ipfs/go-cid"
 	"github.com/ipld/go-ipld-prime"
+	"github.com/ipld/go-ipld-prime/node/basicnode"
 	"github.com/ipld/go-ipld-prime/codec/dagcbor"
 	"github.com/ipld/go-ipld-prime/codec/dagjson"
 	"pgregory.net/rapid"
@@ -567,7 +569,37 @@ var mutatedProp = h.Define(P, "mutated", func(t *rapid.T) Case {
 func TestMutated(t *testing.T) { mutatedProp.Check(t) }
 
 var nodeProp = h.Define(P, "node", func(t *rapid.T) Case {
-	switch rapid.IntRange(0, 3).Draw(t, "nmode") {
+	switch rapid.IntRange(0, 4).Draw(t, "nmode") {
+	case 4: // like: pattern and subject built from the same few pieces (overlaps, short subjects, '*' and '\\' on both sides)
+		piece := rapid.SampledFrom([]string{"a", "b", "ab", "ba", "aba", "/", "/x", "*", "\\", "é", "", "aa"})
+		var pat, sub string
+		for i, n := 0, rapid.IntRange(1, 6).Draw(t, "lp_n"); i < n; i++ {
+			x := piece.Draw(t, "lp")
+			pat += x
+			if rapid.IntRange(0, 2).Draw(t, "lp_star") == 0 {
+				pat += "*"
+			}
+			if rapid.IntRange(0, 2).Draw(t, "ls_keep") > 0 && x != "*" {
+				sub += x
+			}
+		}
+		if rapid.IntRange(0, 3).Draw(t, "ls_cut") == 0 && len(sub) > 0 {
+			sub = sub[:rapid.IntRange(0, len(sub)-1).Draw(t, "ls_cutat")]
+			if !utf8.ValidString(sub) {
+				sub = "a"
+			}
+		}
+		data := val.Str(sub)
+		sl := sel.Sel{{Kind: "id"}}
+		if rapid.Bool().Draw(t, "lp_field") {
+			data = val.Map(val.E("a", val.Str(sub)))
+			sl = sel.Sel{{Kind: "field", Name: "a"}}
+		}
+		st := pol.Stmt{Op: "like", Sel: sl, Pat: pat}
+		if rapid.IntRange(0, 3).Draw(t, "lp_not") == 0 {
+			st = pol.Stmt{Op: "not", Sub: []pol.Stmt{st}}
+		}
+		return Case{Target: "Policy.Match+PartialMatch", Fam: "node-like", Node: &data, Pol: pol.Policy{st}}
 	case 0: // policy matching against hostile data
 		data := pol.GenData(t, "data")
 		// graft hostile leaves into the data, then generate the policy on the
@@ -630,6 +662,50 @@ var nodeProp = h.Define(P, "node", func(t *rapid.T) Case {
 }, run)
 
 func TestNodes(t *testing.T) { nodeProp.Check(t) }
+
+// TestLikePairs: every (pattern, subject) pair over {a, b, *, \} up to length 4 (quick) / 5 (thorough) through
+// Policy.Match and PartialMatch - must return, whatever the answer (the answer is C13's).
+func TestLikePairs(t *testing.T) {
+	maxLen := h.N(4, 5)
+	alpha := []byte{'a', 'b', '*', '\\'}
+	var all []string
+	var rec func(prefix []byte)
+	rec = func(prefix []byte) {
+		all = append(all, string(prefix))
+		if len(prefix) == maxLen {
+			return
+		}
+		for _, ch := range alpha {
+			rec(append(append([]byte{}, prefix...), ch))
+		}
+	}
+	rec(nil)
+	var cur Case
+	n := 0
+	nodeProp.Enumerate(t, &cur, func() {
+		for _, pat := range all {
+			st := pol.Stmt{Op: "like", Sel: sel.Sel{{Kind: "id"}}, Pat: pat}
+			cur = Case{Target: "Policy.Match+PartialMatch", Fam: "like-pairs", Pol: pol.Policy{st}}
+			p, err := cur.Pol.Build(false)
+			if err != nil {
+				continue
+			}
+			for _, sub := range all {
+				v := val.Str(sub)
+				cur.Node = &v
+				nd := basicnode.NewString(sub)
+				p.Match(nd)
+				p.PartialMatch(nd)
+				n++
+			}
+		}
+	})
+	P.EvalN(n)
+	P.AddDistinct(n)
+	P.ClassN("target:Policy.Match+PartialMatch", n)
+	P.ClassN("fam:like-pairs", n)
+	P.Sample(map[string]any{"enumeration": "all like pattern/subject pairs over {a,b,*,\\}", "max_len": maxLen, "pairs": n})
+}
 
 var stringProp = h.Define(P, "strings", func(t *rapid.T) Case {
 	tgt := rapid.SampledFrom(stringTargets).Draw(t, "stgt")
